@@ -53,6 +53,8 @@ def cases(tier, seed):
     for d in range(12 if tier == "quick" else 80):
         out.append({"kind": "history", "cls": "history", "idx": idx, "seed": seed})
         idx += 1
+    for d in range(192 if tier == "quick" else 960):
+        out.append({"kind": "singvec", "cls": "singvec", "idx": d, "seed": seed})
     for d in range(draws * 2):
         out.append({"kind": "layout", "cls": "layout", "idx": idx, "seed": seed, "maxd": maxd})
         idx += 1
@@ -82,7 +84,43 @@ def cases(tier, seed):
 
 def run_case(spec, ctx, R):
     {"spectrum": _spectrum, "entries": _entries, "layout": _layout, "scaled": _scaled,
-     "canonical": _canonical, "extreme": _extreme, "colstruct": _colstruct, "history": _history}[spec["kind"]](spec, ctx, R)
+     "canonical": _canonical, "extreme": _extreme, "colstruct": _colstruct, "history": _history, "singvec": _singvec}[spec["kind"]](spec, ctx, R)
+
+
+def _singvec(spec, ctx, R):
+    """Full-rank matrices with simple, well separated singular values whose singular VECTORS stand in a special relation to a fixed vector:
+    the dominant left (or right) singular vector is the normalised all-ones vector (or a coordinate vector) exactly or up to a relative 1e-9 ..
+    1e-13, so that every other singular vector is orthogonal to that vector exactly up to round-off or up to that distance (centred and
+    nearly centred data, a decoupled first coordinate).  Any post-processing keyed on a functional of the singular vectors - a gauge / sign
+    convention from their entry sums or first entries - meets its degenerate and NEAR-degenerate case here."""
+    rng = gen.rng_for(spec["seed"], "c05sv", spec["idx"])
+    m, n = [(6, 6), (5, 5), (4, 4), (7, 5), (5, 8), (3, 3), (8, 8), (2, 2)][spec["idx"] % 8]
+    N = min(m, n)
+    s_true = np.sort(np.array([9.0, 6.5, 4.0, 2.5, 1.5, 0.7, 0.45, 0.3][:N]) * (1.0 + 0.05 * rng.random(N)))[::-1]
+    delta = [0.0, 1e-9, 1e-10, 1e-11, 1e-12, 1e-13][(spec["idx"] // 8) % 6]
+    target = ["ones", "e1"][(spec["idx"] // 48) % 2]
+    side = ["left", "right"][(spec["idx"] // 96) % 2]
+
+    def special_unitary(k):
+        w = np.ones(k) if target == "ones" else np.eye(k)[0].copy()
+        w = w + delta * rng.standard_normal(k)
+        w /= np.linalg.norm(w)
+        x = w.copy(); x[0] -= 1.0
+        H = np.eye(k) - (2.0 * np.outer(x, x) / (x @ x) if x @ x > 0 else 0.0)     # real reflector with H e_1 = w
+        inner = np.zeros((k, k, 4)); inner[0, 0, 0] = 1.0
+        if k > 1:
+            inner[1:, 1:] = refq.fa(refq.rand_unitary(rng, k - 1))
+        Hq = np.zeros((k, k, 4)); Hq[..., 0] = H
+        return refq.matmul(refq.qa(Hq), refq.qa(inner))
+
+    Uq = special_unitary(m) if side == "left" else refq.rand_unitary(rng, m)
+    Vq = special_unitary(n) if side == "right" else refq.rand_unitary(rng, n)
+    A = refq.matmul(refq.matmul(Uq, refq.diagq(s_true, m, n)), refq.herm(Vq))
+    tags, rank = truth_tags(s_true, m, n)
+    _note_reach(ctx, m, n, tags, rank, N)
+    ctx.hit("singular_vectors:special_relation" if delta == 0.0 else "singular_vectors:near_special_relation")
+    ctx.distinct(A, nontrivial=True)
+    judge(ctx, R, A, s_true, f"singvec:{target}:{side}:delta={delta:g}")
 
 
 def _history(spec, ctx, R):
